@@ -668,7 +668,17 @@ impl<'c, Q: Queue> Interp<'c, Q> {
     }
 
     fn do_clone_replace(&mut self) {
-        let c = self.q.clone();
+        let c = if self.step % 2 == 0 {
+            self.q.clone()
+        } else {
+            // Clone::clone_from into a queue that holds unrelated leftovers
+            set_default_hb(self.case.hasher);
+            let k = (self.step as u32 / 2) % 5;
+            let mut d = Q::from_vec((0..k).map(|i| (Key::new(2_000_000 + i, 0), Prio::new(i as i64))).collect());
+            d.clone_from(&self.q);
+            self.stats.hit("clone_from_used");
+            d
+        };
         if !c.eq_q(&self.q) || !self.q.eq_q(&c) || c.ne_q(&self.q) {
             self.fail(Group::EqClone, "clone_ne_source", "a clone does not compare equal to its source".into());
         }
